@@ -319,9 +319,9 @@ class Ctx:
             finally:
                 os.unlink(tmp)
             out = p.stdout + p.stderr
-            for m in re.finditer(r"'([^']+)' depends on axioms: \[([^\]]*)\]", out):
+            for m in re.finditer(r"^'(.+?)' depends on axioms: \[([^\]]*)\]", out, flags=re.M):
                 self.axioms[m.group(1)] = [a.strip() for a in m.group(2).split(",")]
-            for m in re.finditer(r"'([^']+)' does not depend on any axioms", out):
+            for m in re.finditer(r"^'(.+?)' does not depend on any axioms", out, flags=re.M):
                 self.axioms[m.group(1)] = []
             missing = [t for t in theorem_names if t not in self.axioms and t.split(".")[-1] not in
                        {k.split(".")[-1] for k in self.axioms}]
